@@ -11,6 +11,7 @@ STAGES = {
              quick=(40000, 1), thorough=(1000000, 16), crash_is_violation=True),
         dict(name="enum", pkg="simd", test="TestVf_C20_Enum", quick=(1, 1), thorough=(1, 1), fixed_cases=True,
              crash_is_violation=True),
+        dict(name="history", pkg="simd", test="TestVf_C20_History", quick=(4000, 1), thorough=(100000, 16), crash_is_violation=True),
         dict(name="conc", pkg="simd", test="TestVf_C20_Conc", flavour="race", quick=(300, 1), thorough=(3000, 16),
              crash_is_violation=True, race_is_violation=True),
     ],
